@@ -108,6 +108,8 @@ func (w *hostWorld) doL2(op vhlib.ParsedLine) (obs string) {
 	switch op.Op {
 	case "x3":
 		return w.doX3(op)
+	case "r3":
+		return w.doR3(op)
 	case "v2roots":
 		return w.doV2Roots(op)
 	case "v2read":
